@@ -128,7 +128,13 @@ CreateClauses(ev, rows) ==
        <<"C11", "flat_space_size", ev.modes.fa => ev.adv.space_n = NActions>>,
        <<"C08", "initial_observation",
          /\ \A h \in Hosts : o[h] = InitObsRow(InitSt, ev.modes.fo, h)
-         /\ ev.obs.aux = ZeroRow>> >>
+         /\ ev.obs.aux = ZeroRow>>,
+       <<"BEYOND", "scenario_description_arithmetic",
+         LET D == ev.adv.description IN
+         /\ "hosts" \in DOMAIN D
+         /\ D.subnets = NSub /\ D.hosts = NHosts /\ D.os = NOS /\ D.services = NSrv /\ D.processes = NProc
+         /\ D.exploits = NExp /\ D.privescs = NPriv /\ D.actions = NActions /\ D.obs_dims = ObsDims
+         /\ D.step_limit = StepLimit>> >>
 
 Create ==
     /\ l <= N /\ Ev.ev = "create" /\ ~Malformed(Ev)
@@ -474,6 +480,27 @@ FreqEv ==
     /\ UNCHANGED <<raw, abs, initRaw, steps, mode, paidVal, paidDisc, prev, grp, ndec, hist>>
     /\ l' = l + 1
 
+\* ------------------------------------------- beyond the listed properties
+\* generate_initial_state() returns the scenario's initial state and leaves the environment alone;
+\* generate_random_initial_state() keeps addresses, values and the initial status columns, and gives every host
+\* exactly one OS (only services / processes / OS are randomised).  Tag BEYOND: reported, never a verdict.
+InitStateEv ==
+    /\ l <= N /\ Ev.ev = "initstate"
+    /\ LET ev == Ev
+           okI == Len(ev.initial) = NHosts /\ RowsOK(ev.initial)
+           okR == Len(ev.random) = NHosts /\ RowsOK(ev.random) IN
+       Report(Failed(<< <<"BEYOND", "generate_initial_state_is_the_initial_state",
+                          okI /\ \A r \in 1..NHosts : ev.initial[r] = EncodeRow(InitSt, HostOrder[r])>>,
+                        <<"BEYOND", "generate_initial_state_leaves_environment_alone", ev.cur_unchanged>>,
+                        <<"BEYOND", "random_initial_state_keeps_addresses_values_and_initial_status",
+                          okR /\ \A r \in 1..NHosts :
+                             \A c \in AddrCols \cup StatusCols \cup {ColVal, ColDVal} :
+                                ev.random[r][c] = EncodeRow(InitSt, HostOrder[r])[c]>>,
+                        <<"BEYOND", "random_initial_state_one_os_per_host",
+                          okR /\ \A r \in 1..NHosts : Cardinality({c \in OSCols : ev.random[r][c] # 0}) = 1>> >>), ev.i)
+    /\ UNCHANGED <<raw, abs, initRaw, steps, mode, paidVal, paidDisc, prev, grp, ndec, hist>>
+    /\ l' = l + 1
+
 \* --------------------------------------------------------------- malformed
 MalformedEv ==
     /\ l <= N /\ Malformed(Ev)
@@ -506,12 +533,12 @@ RaisedEv ==
 \* an event kind this monitor has no clauses for (validated by another module)
 OtherEv ==
     /\ l <= N /\ Ev.ev \notin {"create", "reset", "step", "genstep", "goal", "raised", "actions", "decode",
-                              "decode_done", "mask", "readable", "plan_end", "episode_end", "c19", "freq"}
+                              "decode_done", "mask", "readable", "plan_end", "episode_end", "c19", "freq", "initstate"}
     /\ UNCHANGED <<raw, abs, initRaw, steps, mode, paidVal, paidDisc, prev, grp, ndec, hist>>
     /\ l' = l + 1
 
 Next == Create \/ ResetEv \/ StepEv \/ GoalEv \/ RaisedEv \/ ActionsEv \/ DecodeEv \/ DecodeDoneEv
-        \/ MaskEv \/ ReadableEv \/ PlanEndEv \/ EpisodeEndEv \/ C19Ev \/ FreqEv \/ MalformedEv \/ OtherEv
+        \/ MaskEv \/ ReadableEv \/ PlanEndEv \/ EpisodeEndEv \/ C19Ev \/ FreqEv \/ InitStateEv \/ MalformedEv \/ OtherEv
 
 Spec == Init /\ [][Next]_vars
 
